@@ -131,11 +131,13 @@ class ProgressIndicator(object):
         try:
             yield self
         except BaseException:
-            # Whatever ends the body (SystemExit included), the spinner must be stopped
-            self._io.write_line("")
-
+            # Whatever ends the body (SystemExit included), the spinner must be
+            # stopped - before the line is ended: that write may fail as well,
+            # and a spinner still running would draw below the ended line
             self._auto_running.set()
             self._auto_thread.join()
+
+            self._io.write_line("")
 
             raise
 
